@@ -154,6 +154,20 @@ class C01(Prop):
             # node replaces: the version of a name does not advance when it is replaced by an EQUAL value, so consumers keep what they
             # computed from the earlier, equal one (known finding C01-F2 — its mechanism needs the fed default; the same kind of
             # difference WITHOUT one is another defect and is reported below)
+            # which node is stale? one whose last invocation saw, under some parameter, a value that differs (strictly) from the final value of
+            # that name. If the two differ in their TOP-LEVEL type (1 vs True) the version test itself ignores the type — that was repaired
+            # (fix 55) and must not come back; if they are containers of the same type differing inside, it is the recorded residual.
+            def top(v: Any) -> str:
+                return type(v).__name__ if not isinstance(v, dict) else "/".join(sorted(v))[:3]
+
+            last: dict[str, dict] = {}
+            for fid, kw in obs["calls"]:
+                last[fid] = dict((k, v) for k, v in kw)
+            for fid, kw in last.items():
+                for prm, seen in kw.items():
+                    if prm in got and impl.differ(seen, got[prm]) and seen == got[prm] and top(seen) != top(got[prm]):
+                        return (f"returned values differ from dependency-order evaluation: node {fid} last ran on {prm}={seen!r} although {prm} ended as the equal value of ANOTHER "
+                                f"TYPE {got[prm]!r} (a top-level type change is a change): got {got!r}, expected {expect!r}")
             return f"returned values differ from dependency-order evaluation only by equal values of another type: got {got!r}, expected {expect!r}"
         if impl.differ(got, expect):
             return f"returned values differ from dependency-order evaluation: got {got!r}, expected {expect!r}"
